@@ -97,15 +97,23 @@ fn handle_get<W: Write>(root: &Path, path: &str, w: &mut W) -> std::io::Result<(
     let Some(dst) = safe_join(root, path) else {
         return write_frame(w, &Response::Error("bad path".into()));
     };
-    match (std::fs::metadata(&dst), current_hash(&dst)) {
-        (Ok(m), Some(hash)) => {
-            write_frame(w, &Response::Content { len: m.len(), hash })?;
-            let mut f = std::fs::File::open(&dst)?;
-            std::io::copy(&mut f, w)?;
-            w.flush()
-        }
-        _ => write_frame(w, &Response::Error("not found".into())),
-    }
+    // Length, hash and bytes must all come from ONE open handle: a commit by another
+    // process renames a new inode over `dst`, and three separate path lookups could
+    // announce one version's length/hash and stream another version's bytes.
+    let Ok(mut f) = std::fs::File::open(&dst) else {
+        return write_frame(w, &Response::Error("not found".into()));
+    };
+    let m = match f.metadata() {
+        Ok(m) if m.is_file() => m,
+        _ => return write_frame(w, &Response::Error("not found".into())),
+    };
+    let mut hasher = blake3::Hasher::new();
+    std::io::copy(&mut f, &mut hasher)?;
+    let hash = *hasher.finalize().as_bytes();
+    std::io::Seek::seek(&mut f, std::io::SeekFrom::Start(0))?;
+    write_frame(w, &Response::Content { len: m.len(), hash })?;
+    std::io::copy(&mut (&mut f).take(m.len()), w)?;
+    w.flush()
 }
 
 #[allow(clippy::too_many_arguments)]
